@@ -198,7 +198,7 @@ def main(tier, seed, replay=None):
         for b in names:
             idx[len(reqs)] = (a, b)
             reqs.append({"id": len(reqs), "src": pair_src(P[a], P[b]), "budget_ms": 5000})
-    outs, rc, err = run_harness(vh, "eval", reqs)
+    outs, rc, err = run_harness_par(vh, "eval", reqs, nproc=8)
     lt, eq = {}, {}
     for i, (a, b) in idx.items():
         o = outs.get(i) or {"st": "missing"}
@@ -263,6 +263,13 @@ def main(tier, seed, replay=None):
                   "{(@: 1, @item: 2), (@: 0, @item: 5), (@: 0, @char: 98), (@: 2, @char: 97), (@: 1, @value: 0)}",
                   "{(a: 1, b: 1), (a: 1, c: 0), (a: 0, b: 2, c: 1), (a: 2)}", "{1, 2, 3, 4, 5, 6, 7, 8, 9, (a: 5), (a: 1), (a: 3, b: 1), 'q'}",
                   "{[1, , 2], [1, 2], [1], (a: 1), (a: 0, b: 0), 0}"]
+    def canon_dump(d):
+        # nested sets are dumped in enumeration order: compare them as sets
+        if "s" in d:
+            return {"s": sorted((canon_dump(m) for m in d["s"]), key=lambda x: json.dumps(x, sort_keys=True)), "c": d.get("c")}
+        if "t" in d:
+            return {"t": [[k, canon_dump(v)] for k, v in d["t"]]}
+        return d
     preqs = [{"id": i, "src": t} for i, t in enumerate(PRINT_CORE)]
     for i in range(0, len(sreqs), 2):
         m = re.search(r", s: (\{.*\})\)$", sreqs[i]["src"], re.S)
@@ -278,7 +285,7 @@ def main(tier, seed, replay=None):
         items = sorted(((int(float(dict((k, v) for k, v in m["t"])["@"]["n"])), dict((k, v) for k, v in m["t"])["@item"]) for m in a["val"].get("s", [])),
                        key=lambda kv: kv[0])
         nprint += 1
-        if [v for _, v in items] != o["ord"]:
+        if [canon_dump(v) for _, v in items] != [canon_dump(v) for v in o["ord"]]:
             run.classify_failure(None, {"case": {"src": q["src"], "printed_order": True}, "observed": {"printed_order": o["ord"], "orderby": [v for _, v in items], "gotype": o.get("gotype")},
                                         "oracle": "a set prints its members in a sequence that is not the one `orderby .` yields (printing does not follow the order <)"})
     # committed witness of the open finding about hand-written nested @neg tuples
